@@ -9,7 +9,9 @@ inductive NType | or | and | defense | exist | notExist
 
 /-- what `apriori.py` reads of a node.  `defOne`/`defZero` are the two float
 comparisons the code makes (`== 1.0`, `== 0.0`, computed by the harness on
-the real float); `gate` = `ttc` has a `name` other than Enabled/Disabled. -/
+the real float).  Of the `ttc` dict the code reads its truthiness and the value under the key `name`
+(which only a single distribution function has; a composite TTC `{'type': 'addition', 'lhs': .., 'rhs': ..}`
+and a number `{'type': 'number', 'value': ..}` have none). -/
 structure ANode where
   type : NType
   children : List Nat
@@ -17,8 +19,26 @@ structure ANode where
   defOne : Bool := false
   defZero : Bool := true
   exist : Bool := false
-  gate : Bool := false
+  /-- `bool(node.ttc)`: the TTC is a non-empty dict (neither `None` nor `{}`) -/
+  ttcSet : Bool := false
+  /-- `node.ttc['name']` if the dict has that key -/
+  ttcName : Option String := none
   deriving Repr, Inhabited
+
+/-- `node.ttc` is one of the two pseudo-distributions: `'name' in node.ttc and node.ttc['name'] in ['Enabled', 'Disabled']` -/
+def ANode.pseudo (n : ANode) : Bool :=
+  match n.ttcName with
+  | some nm => nm == "Enabled" || nm == "Disabled"
+  | none => false
+
+/-- `_has_ttc_distribution(node)` (since 68ab4f5): any non-empty TTC other than Enabled / Disabled -/
+def ANode.hasDist (n : ANode) : Bool := n.ttcSet && !n.pseudo
+
+/-- the test before 68ab4f5: `bool(node.ttc) and 'name' in node.ttc and node.ttc['name'] not in [..]` — a TTC
+without a `name` key (composite, number) did not count.  Only used to document the repaired defect
+(`Props/C08.lean`: `pre_fix_distribution_test_misses_composite`). -/
+def ANode.hasDistPreFix (n : ANode) : Bool :=
+  n.ttcSet && (match n.ttcName with | some nm => !(nm == "Enabled" || nm == "Disabled") | none => false)
 
 abbrev AG := List ANode
 
@@ -39,7 +59,7 @@ def necG (g : AG) : G where
   kind i := necKind (typeOf g i)
   parents i := ((g[i]?).map (·.parents)).getD []
   children i := ((g[i]?).map (·.children)).getD []
-  gate i := ((g[i]?).map (·.gate)).getD false
+  gate i := ((g[i]?).map (·.hasDist)).getD false
 
 /-- `evaluate_viability` on a status node -/
 def viabConst (g : AG) (i : Nat) : Bool :=
@@ -54,9 +74,19 @@ def necConst (g : AG) (i : Nat) : Bool :=
       | .defense => !n.defZero | .exist => !n.exist | .notExist => n.exist | _ => true)
   | none => true
 
-/-- `calculate_viability_and_necessity(graph)` from a freshly generated graph
-(all labels `True`), nodes visited in the stored order `order`. -/
-def calcViab (g : AG) (order : List Nat) : Lab := calcLab (viabG g) (viabConst g) (g.length + 1) order top
-def calcNec (g : AG) (order : List Nat) : Lab := calcLab (necG g) (necConst g) (g.length + 1) order top
+/-- `calculate_viability_and_necessity(graph)` on a graph whose nodes carry the labels `v0` (left by an earlier
+run, loaded from a file, set by the caller, ...), nodes visited in the stored order `order`: the reset loop,
+then the evaluation / propagation loop. -/
+def calcViabFrom (g : AG) (order : List Nat) (v0 : Lab) : Lab :=
+  calcAll (viabG g) (viabConst g) (g.length + 1) order v0
+def calcNecFrom (g : AG) (order : List Nat) (v0 : Lab) : Lab :=
+  calcAll (necG g) (necConst g) (g.length + 1) order v0
+
+/-- the same from a freshly generated graph (all labels `True`) -/
+def calcViab (g : AG) (order : List Nat) : Lab := calcViabFrom g order top
+def calcNec (g : AG) (order : List Nat) : Lab := calcNecFrom g order top
+
+/-- labels given as a list in storage order (absent positions: the default `True`) -/
+def labOfList (l : List Bool) : Lab := ⟨fun i => (l[i]?).getD true⟩
 
 end MalVerif.AGraph
